@@ -33,6 +33,7 @@ def parseLines (s : String) : Option (List FLine) := (s.splitOn ",").mapM parseL
 
 def step (st : St) (op res : String) : St × List String :=
   match words op, (res.splitOn " ; ").map words with
+  | ["freset"], _ => ({}, ["br:file.fresh-process"])
   | ["fsetup", proto, _, _], [[orc], [r]] =>
     match parseLines orc with
     | none => (st, ["DIVERGE drift unparsed-oracle"])
